@@ -287,13 +287,29 @@ def frame_changes(before: list, routine_ops) -> str | None:
 
 
 def _size(rs: dict) -> tuple:
+    """Order of witnesses: prefer inputs without Call ops and without a routine that starts with a Jump (those two features have
+    defect classes of their own and would make the witness of any other class harder to read), then fewer ops, fewer routines."""
     import json
 
-    return (sum(len(r["ops"]) for r in rs["routines"]), len(rs["routines"]), len(json.dumps(rs, sort_keys=True)), json.dumps(rs, sort_keys=True))
+    unusual = sum(1 for r in rs["routines"] for i, o in enumerate(r["ops"]) if o[1] == "Call" or (i == 0 and o[1] == "Jump"))
+    blob = json.dumps(rs, sort_keys=True)
+    return (1 if unusual else 0, sum(len(r["ops"]) for r in rs["routines"]), len(rs["routines"]), len(blob), blob)
+
+
+MEMBER_CAP = 400
+
+
+def member_id(rs: dict) -> str:
+    """Identity of one failing input inside a violation class (known_findings.json may list the members it covers)."""
+    import hashlib
+    import json
+
+    return hashlib.sha1(json.dumps(rs, sort_keys=True).encode()).hexdigest()[:12]
 
 
 class Collector:
-    """Keeps, per signature, the number of witnesses and the smallest witness (deterministic order)."""
+    """Keeps, per signature, the number of witnesses, the ids of (at most MEMBER_CAP, the lexicographically smallest) witnesses and the
+    smallest witness (deterministic order)."""
 
     def __init__(self) -> None:
         self.by_sig: dict[str, dict] = {}
@@ -301,10 +317,14 @@ class Collector:
     def add(self, signature: str, what: str, rs: dict, contract: str, observed: Any, extra: dict | None = None) -> None:
         e = self.by_sig.get(signature)
         size = _size(rs)
+        mid = member_id(rs)
         if e is None:
-            self.by_sig[signature] = {"n": 1, "size": size, "what": what, "rs": rs, "contract": contract, "observed": observed, "extra": extra or {}}
+            self.by_sig[signature] = {"n": 1, "size": size, "what": what, "rs": rs, "contract": contract, "observed": observed, "extra": extra or {}, "members": [mid]}
         else:
             e["n"] += 1
+            e["members"].append(mid)
+            if len(e["members"]) > 4 * MEMBER_CAP:
+                e["members"] = sorted(set(e["members"]))[:MEMBER_CAP]
             if size < e["size"]:
                 e.update(size=size, what=what, rs=rs, contract=contract, observed=observed, extra=extra or {})
 
@@ -313,16 +333,20 @@ class Collector:
             e = self.by_sig.get(sig)
             if e is None:
                 self.by_sig[sig] = dict(o)
+                self.by_sig[sig]["members"] = list(o.get("members", []))
             else:
                 n = e["n"] + o["n"]
+                members = e["members"] + list(o.get("members", []))
                 if tuple(o["size"]) < tuple(e["size"]):
                     e.update(o)
                 e["n"] = n
+                e["members"] = members
 
     def violations(self, kind: str) -> list[Violation]:
         out = []
         for sig in sorted(self.by_sig):
             e = self.by_sig[sig]
+            members = sorted(set(e.get("members", [])))[:MEMBER_CAP]
             out.append(
                 Violation(
                     signature=sig,
@@ -330,7 +354,7 @@ class Collector:
                     input={"kind": kind, "routine_set": e["rs"], **e["extra"]},
                     contract=e["contract"],
                     observed=e["observed"],
-                    extra={"witnesses": e["n"]},
+                    extra={"witnesses": e["n"], "count": e["n"], "members": members},
                 )
             )
         return out
